@@ -84,6 +84,10 @@ func c02Catalog(r *vrng) []c02Cfg {
 		{Name: "compat", Compat: true, Backends: []c02B{{0, "", s()}}},
 		// secrets that differ in the last character / where one is a prefix of the other
 		{Name: "near3", Backends: []c02B{{0, "/a", near + "x"}, {0, "/b", near + "y"}, {1, "", near}}},
+		// one host, paths that are string prefixes of each other without being path prefixes: the
+		// longer one listed before the shorter one (1, 2) and after it (2, 3).  A request that names
+		// one of these backends is that backend's and nobody else's, in both directions.
+		{Name: "prefix3", Backends: []c02B{{0, "/nextcloud-test", s()}, {0, "/nextcloud", s()}, {0, "/nextcloud2", s()}}},
 	}
 }
 
@@ -181,6 +185,7 @@ type c02World struct {
 	extra   []*httptest.Server // extra[0] is never configured
 	base    []string           // base[i-1] = URL of backend i
 	clients []*TestClient      // clients[i-1] has joined c02Room through backend i
+	actual  []int              // actual[i-1] = the backend the server made that session a session of (i on a correct server)
 	fake    *c02Fake
 	cur     time.Time
 	last    time.Duration
@@ -322,12 +327,28 @@ func (w *c02World) newClient(id int, user string) *TestClient {
 	if err := c.SendHelloParams(w.base[id-1], HelloVersionV1, "", nil, TestBackendClientAuthParams{UserId: user}); err != nil {
 		w.t.Fatal(err)
 	}
-	if _, err := c.RunUntilHello(ctx); err != nil {
+	hello, err := c.RunUntilHello(ctx)
+	if err != nil {
 		w.t.Fatalf("hello for backend %d: %v", id, err)
 	}
 	if _, err := c.JoinRoom(ctx, c02Room); err != nil {
 		w.t.Fatalf("join for backend %d: %v", id, err)
 	}
+	// The harness must keep observing when the server's URL lookup is wrong: the markers that
+	// delimit what a request caused are signed for the backend the server really attached this
+	// session to (read from the session, not assumed).
+	act := id
+	if sess := w.hub.GetSessionByPublicId(hello.Hello.SessionId); sess != nil && sess.Backend() != nil {
+		if b := sess.Backend(); b.IsCompat() {
+			act = 1
+		} else {
+			fmt.Sscanf(b.Id(), "backend%d", &act)
+		}
+	}
+	for len(w.actual) < id {
+		w.actual = append(w.actual, len(w.actual)+1)
+	}
+	w.actual[id-1] = act
 	return c
 }
 
@@ -356,12 +377,16 @@ func (w *c02World) collectEvents(id int) (int, []string) {
 	req.RemoteAddr = "192.0.2.250:4711"
 	req.Header.Set("Content-Type", "application/json")
 	req.Header.Set(c02HdrRandom, rnd)
-	req.Header.Set(c02HdrChecksum, c02Mac(w.secret(id), rnd, body))
+	act := id
+	if id-1 < len(w.actual) {
+		act = w.actual[id-1]
+	}
+	req.Header.Set(c02HdrChecksum, c02Mac(w.secret(act), rnd, body))
 	req.Header.Set(c02HdrBackend, w.base[id-1])
 	rec := httptest.NewRecorder()
 	w.router.ServeHTTP(rec, req)
 	if rec.Code != http.StatusOK {
-		w.t.Fatalf("marker request for backend %d refused: %d %s", id, rec.Code, rec.Body.String())
+		w.t.Fatalf("marker request for backend %d (session attached to backend %d) refused: %d %s", id, act, rec.Code, rec.Body.String())
 	}
 	ctx, cancel := context.WithTimeout(context.Background(), testTimeout)
 	defer cancel()
@@ -374,6 +399,9 @@ func (w *c02World) collectEvents(id int) (int, []string) {
 		}
 		if msg.Type == "event" && msg.Event != nil && msg.Event.Message != nil && strings.Contains(string(msg.Event.Message.Data), marker) {
 			return n, texts
+		}
+		if msg.Type == "event" && msg.Event != nil && msg.Event.Message != nil && strings.Contains(string(msg.Event.Message.Data), "c02-marker-") {
+			continue // the marker of another client that the server put into the same room
 		}
 		n++
 		js, _ := json.Marshal(msg)
@@ -1042,6 +1070,57 @@ func c02GenCase(r *vrng, w *c02World, id int) *c02Case {
 	return &c02Case{Id: id, Cfg: w.cfg, Ops: g.ops}
 }
 
+// Directed cases, run first for every configuration with several backends: the complete matrix
+// of (backend named by the header) x (backend whose secret signed the request), split so that a
+// failure shrinks to the request that shows it:
+//   0  header names h, signed with the secret of another backend s: every one must be refused
+//   1  header names h, signed with h's secret: accepted, event to h's clients only
+//   2  no header, signed with s's secret: accepted as s
+// The header is sent in the forms a Nextcloud instance uses (base URL, with "/", with the OCS path).
+func c02Directed(w *c02World, id int, part int) *c02Case {
+	g := &c02Gen{r: newVrng(7, uint64(1000+part)), w: w}
+	n := g.n()
+	addr, cnt := g.newAddr(), 0
+	emit := func(class string, h, s int, suffix string) {
+		q := c02Req{target: s, method: "POST", ctype: "application/json", clen: -2}
+		q.body = fmt.Sprintf(`{"type":"message","message":{"data":{"h":%d,"s":%d}}}`, h, s)
+		q.rnd = g.random(64)
+		q.chk = c02Mac(w.secret(s), q.rnd, []byte(q.body))
+		if h == 0 {
+			q.bhdrAbsent = true
+		} else {
+			c := h
+			q.bhdr, q.claim = fmt.Sprintf("{B%d}", h)+suffix, &c
+		}
+		if cnt >= 7 {
+			addr, cnt = g.newAddr(), 0
+		}
+		cnt++
+		g.emit(class, q, addr)
+	}
+	switch part {
+	case 0:
+		for h := n; h >= 1; h-- {
+			for s := 1; s <= n; s++ {
+				if s != h {
+					emit("named_foreign_secret", h, s, c02Suffixes[(h+s)%len(c02Suffixes)])
+				}
+			}
+		}
+	case 1:
+		for h := 1; h <= n; h++ {
+			for _, suffix := range []string{"", "/", "/ocs/v2.php/apps/spreed/api/v1/signaling/backend"} {
+				emit("named_own_secret", h, h, suffix)
+			}
+		}
+	default:
+		for s := 1; s <= n; s++ {
+			emit("noheader_own_secret", 0, s, "")
+		}
+	}
+	return &c02Case{Id: id, Cfg: w.cfg, Ops: g.ops}
+}
+
 // sgn classifies a (header, secret) pairing for the histogram: 0 no header, 1 same backend, 2 other backend, 3 unknown
 func sgn(h, s, n int) int {
 	switch {
@@ -1191,11 +1270,29 @@ func TestVerifC02(t *testing.T) {
 		perCfg = 700
 	}
 	id := 0
+	// directed matrices first (their verdicts come first in the report): ids 800000 + 10*configuration + part
+	for ci, cfg := range catalog {
+		if len(cfg.Backends) < 2 {
+			continue
+		}
+		for part := 0; part < 3; part++ {
+			run(c02Directed(world(cfg), 800000+10*ci+part, part))
+		}
+	}
 	for ci, cfg := range catalog {
 		w := world(cfg)
-		for i := 0; i < perCfg; i++ {
+		nCases := perCfg
+		if cfg.Name == "prefix3" {
+			// the same code paths as shared3 unless the URL lookup is wrong; the directed matrices
+			// above carry the class, the random walk gets half the volume (run time)
+			nCases = perCfg / 2
+		}
+		for i := 0; i < nCases; i++ {
 			run(c02GenCase(newVrng(env.seed, uint64(ci*100000+i)), w, id))
 			id++
+		}
+		if cfg.Name == "prefix3" && !env.thorough() {
+			continue // bit-flip sweeps: thorough tier only for this configuration
 		}
 		// sweeps of single-bit flips: every bit position in the thorough tier, a stride in the quick tier
 		stride, reps := 29, 1
